@@ -649,13 +649,16 @@ impl World for MsWorld {
         let mut force_merge = false;
         if self.boost_burst > 0 && any_dy {
             self.boost_burst -= 1;
-            k = if !self.wl.is_empty() && rng.chance(1, 2) { 6 } else { 0 };
+            k = if !self.wl.is_empty() && rng.chance(2, 3) { 6 } else { 0 };
             force_merge = true;
         }
         // on-behalf calls: mostly by a caller some owner has whitelisted
         let mut behalf_owner = rng.range(1, nu);
         if (k == 6 || k == 7) && !self.wl.is_empty() && rng.chance(4, 5) {
-            let (o, c) = *rng.pick(&self.wl);
+            // in a week-passed burst prefer an (owner, caller) pair whose caller already holds dual-yield tokens (positions staked
+            // on behalf earlier): only those can be merged into a new on-behalf stake
+            let holding: Vec<(u64, u64)> = self.wl.iter().copied().filter(|(_, c)| !s.users[(*c - 1) as usize].dy.is_empty()).collect();
+            let (o, c) = if force_merge && !holding.is_empty() { *rng.pick(&holding) } else { *rng.pick(&self.wl) };
             u = c;
             behalf_owner = o;
         }
@@ -769,7 +772,7 @@ impl World for MsWorld {
                     _ => (rng.range(1, 20), rng.range(1, 20), 0),
                 };
                 if ep >= 7 {
-                    self.boost_burst = 3;
+                    self.boost_burst = 4;
                 }
                 ('O', format!("advance {bk} {rd} {ep}"))
             }
